@@ -800,9 +800,11 @@ def _clear_defaults(ita):
 def _embed(outer, inner, use_varargs=True, use_varkwargs=True, depth=1):
     o_posargs, o_pokargs, o_varargs, o_kwoargs, o_varkwargs, o_src = outer
 
+    # copies: when inner was derived from outer they can hold the very same
+    # star parameter objects, which _Merger tells apart by identity
     stars_sig = SortedParameters(
-        [], [], use_varargs and o_varargs,
-        {}, use_varkwargs and o_varkwargs, {})
+        [], [], use_varargs and o_varargs and o_varargs.replace(),
+        {}, use_varkwargs and o_varkwargs and o_varkwargs.replace(), {})
 
     i_posargs, i_pokargs, i_varargs, i_kwoargs, i_varkwargs, i_src = \
         _Merger(inner, stars_sig)
